@@ -32,6 +32,8 @@ correctness, rejection of a canonical S' ≠ S.
 -/
 import AskarModel.Model.Sign
 import AskarModel.Lemmas.Sign
+import AskarModel.Model.Seed
+import AskarModel.Lemmas.Seed
 
 namespace Askar.C13
 open Askar.Sign Askar.Crypto
@@ -343,5 +345,84 @@ example : Ecdsa.Laws Ecdsa.toyOps := Ecdsa.toy_laws
 example : Ecdsa.signRS Ecdsa.toyOps false 3 2 5 = some (2, 2) ∧ Ecdsa.verifyRS Ecdsa.toyOps false (Ecdsa.toyOps.mulBase 3) 5 2 2 = true := by decide
 example : Ecdsa.signRS Ecdsa.toyOps true 3 2 6 = some (2, 1) ∧ Ecdsa.signRS Ecdsa.toyOps false 3 2 6 = some (2, 6) ∧
     Ecdsa.verifyRS Ecdsa.toyOps true (Ecdsa.toyOps.mulBase 3) 6 2 1 = true ∧ Ecdsa.verifyRS Ecdsa.toyOps true (Ecdsa.toyOps.mulBase 3) 6 2 6 = false := by decide
+
+/-! ### gap row 17: `KeySign::create_signature`, `SignatureType::signature_length`, `Ed25519KeyPair::sign`; seeded keys
+
+The allocating entry point, on `AnyKey` and on each concrete key type, is the writing one; `LocalKey::sign_message` is it behind the
+type-string parser and the error-kind mapping — so every theorem above about `signMessage` is a theorem about `create_signature`. -/
+
+open Askar.Seed in
+/-- `create_signature` returns what `write_signature` writes — same signature, same error — on `AnyKey` … -/
+theorem create_signature_is_write (Sch : Schemes) (k : Key) (m : Bytes) (st : Option SignatureType) :
+    anyCreateSignature Sch k m st = anyWriteSignature Sch k m st := anyCreate_eq Sch k m st
+
+open Askar.Seed in
+/-- … and on the concrete key type of the key's algorithm (`Ed25519KeyPair`, `K256KeyPair`, `P256KeyPair`, `P384KeyPair`) -/
+theorem create_signature_concrete_is_any {Sch : Schemes} {k : Key} {a : SigAlg} (ha : k.alg.sigAlg? = some a) (m : Bytes)
+    (st : Option SignatureType) : concreteCreateSignature Sch a k m st = anyCreateSignature Sch k m st := concrete_eq_any ha m st
+
+open Askar.Seed in
+/-- `LocalKey::sign_message` = parse the type string, `create_signature`, map the error kind -/
+theorem sign_message_is_create_signature (Sch : Schemes) (k : Key) (m : Bytes) (t : Option (List Char)) :
+    signMessage Sch k m t = ((parseSigType t).bind fun st => anyCreateSignature Sch k m st).mapErr CErr.toKind :=
+  signMessage_eq_create Sch k m t
+
+open Askar.Seed in
+/-- the length of a created signature is what `SignatureType::signature_length` announces: for the algorithm's own type and for
+    the type that was asked for (widths of the real crates: `Schemes.Std`) -/
+theorem create_signature_length {Sch : Schemes} (hstd : Sch.Std) {k : Key} {m s : Bytes} {st : Option SignatureType}
+    (h : anyCreateSignature Sch k m st = .ok s) :
+    ∃ a, k.alg.sigAlg? = some a ∧ s.length = a.native.signatureLength ∧ ∀ ty, st = some ty → s.length = ty.signatureLength :=
+  create_length hstd h
+
+/-- the executable specifications the driver signs with have exactly these widths (`ed25519_sig_width`,
+    `ecdsa_sig_width_matches_type`): a family of schemes whose `sign` is the specification's is `Std` -/
+theorem spec_widths_are_signature_lengths (reduce : Bool) (sk m : Bytes) :
+    (Ed25519.sign sk m).length = SigAlg.ed25519.native.signatureLength ∧
+    (∀ sig, Ecdsa.sign Ecdsa.k256 reduce sk m = some sig → sig.length = SigAlg.k256.native.signatureLength) ∧
+    (∀ sig, Ecdsa.sign Ecdsa.p256 reduce sk m = some sig → sig.length = SigAlg.p256.native.signatureLength) ∧
+    (∀ sig, Ecdsa.sign Ecdsa.p384 reduce sk m = some sig → sig.length = SigAlg.p384.native.signatureLength) :=
+  ⟨ed25519_sig_width sk m, fun sig h => (ecdsa_sig_width_matches_type reduce sk m sig).2.1 h,
+   fun sig h => (ecdsa_sig_width_matches_type reduce sk m sig).1 h, fun sig h => (ecdsa_sig_width_matches_type reduce sk m sig).2.2 h⟩
+
+open Askar.Seed in
+/-- `SignatureType::from_str(s).map(signature_length)`: a number exactly for the spellings of the four names, and then the width of
+    that type (64, 64, 64, 96); the parser's error otherwise -/
+theorem signature_length_table (s : List Char) :
+    (∀ n, signatureLengthOf s = .ok n ↔ ∃ t : SignatureType, normSpec s = t.canonical ∧ n = t.signatureLength) ∧
+    (∀ e, signatureLengthOf s = .err e ↔ SignatureType.fromStr s = .err e) :=
+  ⟨signatureLengthOf_ok_iff s, signatureLengthOf_err_iff s⟩
+
+open Askar.Seed in
+/-- `Ed25519KeyPair::sign` is `create_signature` with the default type: `Some(signature)` with a secret, `None` where
+    `create_signature` reports `MissingSecretKey` -/
+theorem ed25519_sign_is_create_signature (S : SigScheme) (k : Key) (m : Bytes) :
+    createSignature (ed25519WriteSignature S k) m none =
+      match ed25519Sign S k m with
+      | some s => .ok s
+      | none => .err .missingSecretKey := ed25519Sign_eq S k m
+
+open Askar.Seed in
+/-- seeded keys: whatever (seed, method) `from_seed` accepts for a signing algorithm, the key signs every message with the default
+    type, the signature is the scheme's under the seeded secret, and it verifies under the key and under its public-only import -/
+theorem seeded_key_signs_and_verifies {P : Prims} {strict : Bool} {Sch : Schemes} {alg : KeyAlg} {a : SigAlg} {seed : Bytes}
+    {method : Option String} {sk : Bytes} (ha : alg.sigAlg? = some a) (_h : fromSeed P strict alg seed method = .ok sk) (m : Bytes) :
+    signMessage Sch (Key.ofSecret Sch a alg sk) m none = .ok ((Sch.scheme a).sign sk m) ∧
+    verifySignature Sch (Key.ofSecret Sch a alg sk) m ((Sch.scheme a).sign sk m) none = .ok true ∧
+    verifySignature Sch (Key.ofSecret Sch a alg sk).toPublic m ((Sch.scheme a).sign sk m) none = .ok true := by
+  have hs : signMessage Sch (Key.ofSecret Sch a alg sk) m none = .ok ((Sch.scheme a).sign sk m) :=
+    sign_ok_intro (st := none) ha rfl rfl (.inl rfl)
+  have hv := verify_own_signature_same_args (wf_ofSecret Sch a alg sk ha) hs
+  exact ⟨hs, hv.1, hv.2⟩
+
+/-- non-vacuity: a seeded Ed25519 key exists on the executable primitives, `create_signature` succeeds on the toy instance -/
+example : ∃ sk, Seed.fromSeed Seed.Std.prims false .ed25519 [] none = .ok sk := by
+  rw [Seed.fromSeed_none_current]
+  obtain ⟨sk, h, _⟩ := Seed.generate_total (P := Seed.Std.prims) (alg := .ed25519) rfl (.det (Seed.detSeed []) 0)
+  exact ⟨sk, by rw [h]; rfl⟩
+example : ∃ s, Seed.anyCreateSignature Toy.schemes (Key.ofSecret Toy.schemes .p384 .p384 [1]) [] (some .es384) = .ok s ∧ s.length = 96 :=
+  ⟨_, rfl, by decide⟩
+example : Seed.signatureLengthOf "ES-384".toList = .ok 96 := by decide
+example : Seed.signatureLengthOf "es385".toList = .err .unsupported := by decide
 
 end Askar.C13
